@@ -106,4 +106,23 @@ def mergePan (a b : List Entry) : List Entry := nonApp b ++ a ++ appPart b
 `sequence_number`, the list position of every rule of `b` is behind all rules of `a`. -/
 def mergeNsx (a b : List Entry) : List Entry := a ++ b
 
+/-! ### PAN-OS: the object classes of a vsys (`Addresses`, `AddressGroups`, `Services`, `ServiceGroups`) -/
+
+structure PanObjs where
+  addresses     : List Nat := []
+  addressGroups : List Nat := []
+  services      : List Nat := []
+  serviceGroups : List Nat := []
+  deriving DecidableEq, Repr, Inhabited
+
+/-- Repaired code: all four classes of the raw / IPv6 vsys are appended. -/
+def mergePanObjs (a b : PanObjs) : PanObjs :=
+  { addresses := a.addresses ++ b.addresses, addressGroups := a.addressGroups ++ b.addressGroups,
+    services := a.services ++ b.services, serviceGroups := a.serviceGroups ++ b.serviceGroups }
+
+/-- Code as found: `ServiceGroups` of the second configuration are forgotten. -/
+def mergePanObjsOld (a b : PanObjs) : PanObjs :=
+  { addresses := a.addresses ++ b.addresses, addressGroups := a.addressGroups ++ b.addressGroups,
+    services := a.services ++ b.services, serviceGroups := a.serviceGroups }
+
 end NA.C18
